@@ -548,6 +548,26 @@ def np_minimum(eng, args, kw):
     return ite(r_cmp('<=', a, b), a, b)
 
 
+def np_where(eng, args, kw):
+    """np.where(cond, a, b): elementwise choice with numpy's broadcasting (executed by numpy on object arrays)"""
+    if len(args) != 3:
+        raise EngineError('np.where with one argument not modelled')
+    import numpy as _np
+    c, a, b = (nd_to_obj(eng, x) for x in args)
+    try:
+        c, a, b = _np.broadcast_arrays(c, a, b)
+    except ValueError:
+        raise PyRaise('ValueError', ('operands could not be broadcast together',))
+    out = _np.empty(c.shape, dtype=object)
+    for ix in _np.ndindex(*c.shape):
+        cv = c[ix]
+        if isinstance(cv, (bool, _np.bool_)):
+            out[ix] = a[ix] if cv else b[ix]
+        else:
+            out[ix] = ite(eng.truth(cv), a[ix], b[ix])
+    return nd_from_obj(out) if out.shape != () else out[()]
+
+
 def np_dot(eng, args, kw):
     return eng.matmul(args[0], args[1])
 
@@ -610,7 +630,7 @@ NP = Namespace('np', {
     'sum': Builtin('np.sum', np_sum), 'argmax': Builtin('np.argmax', np_argmax),
     'arange': Builtin('np.arange', np_arange), 'dot': Builtin('np.dot', np_dot),
     'logical_not': Builtin('np.logical_not', np_logical_not),
-    'hypot': Builtin('np.hypot', np_hypot),
+    'hypot': Builtin('np.hypot', np_hypot), 'where': Builtin('np.where', np_where),
     'maximum': Builtin('np.maximum', np_maximum), 'minimum': Builtin('np.minimum', np_minimum),
     'cumsum': Builtin('np.cumsum', np_cumsum),
     'flip': Builtin('np.flip', np_flip),
@@ -1372,8 +1392,9 @@ def getitem(eng, base, idx):
         return base.arr.read((base.i, idx))
     if isinstance(base, dict):
         key = idx.lit() if isinstance(idx, AStr) else idx
-        if key in base:
-            return base[key]
+        k = dict_find(eng, base, key)
+        if k is not None:
+            return base[k]
         raise PyRaise('KeyError', (key,))
     if isinstance(base, SDict):
         key = eng.key_term(idx)
@@ -1458,8 +1479,37 @@ def slist_getitem(eng, lst, idx):
     raise EngineError('slist index fell through')
 
 
+class SymKey:
+    """a symbolic value used as key of a (small, local) Python dict: hashable by identity; lookups compare with the
+    stored keys one by one, forking on equality"""
+
+    def __init__(self, v):
+        self.v = v
+
+    def __repr__(self):
+        return 'SymKey(%r)' % (self.v,)
+
+
+def _unkey(k):
+    return k.v if isinstance(k, SymKey) else k
+
+
+def dict_find(eng, d, key):
+    """the stored key equal to `key` (forking on symbolic equalities), or None"""
+    symbolic = isinstance(key, (SV, CX)) or any(isinstance(k, SymKey) for k in d)
+    if not symbolic:
+        return key if key in d else None
+    for k in list(d):
+        if eng.decide(eng.py_eq(key, _unkey(k))):
+            return k
+    return None
+
+
 def nd_getitem(eng, arr, idx):
     d = arr.data
+    if isinstance(idx, SList) and idx.is_concrete() and all(is_intlike(v) for v in idx.concrete()):
+        # a list of integers as index: numpy's integer (fancy) indexing
+        idx = NDArr(list(idx.concrete()))
     if isinstance(idx, NDArr):
         if idx.shape == arr.shape:
             # boolean-mask selection: modelled as the full array; it is only meaningful when the
@@ -1618,7 +1668,11 @@ def setitem(eng, base, idx, v):
         eng.note_write(('arr', base.arr))
         return
     if isinstance(base, dict):
-        base[idx.lit() if isinstance(idx, AStr) else idx] = v
+        key = idx.lit() if isinstance(idx, AStr) else idx
+        k = dict_find(eng, base, key)
+        if k is None:
+            k = SymKey(key) if isinstance(key, (SV, CX)) else key
+        base[k] = v
         eng.note_write(('dict', base))
         return
     if isinstance(base, SDict):
